@@ -28,6 +28,13 @@ func vBytes(name string, n int) []byte {
 	return b
 }
 func vByte(name string) byte { return byte(vAssign[name]) }
+func vByteRange(name string, lo, hi byte) byte {
+	v := byte(vAssign[name])
+	if v < lo || v > hi {
+		panic(vStop{"assume", "vByteRange"})
+	}
+	return v
+}
 func vInt(name string, lo, hi int) int {
 	v := int(int64(vAssign[name]))
 	if v < lo || v > hi {
